@@ -119,7 +119,9 @@ def dom_allowed_check(chk: Check) -> None:
     ex = prog.func('base.state_machine.StateMachine._exit_current_state')
     cfg = cfg_of(ex)
     tests = [n for n in cfg.nodes if n.kind == 'test' and 'ALLOWED' in unparse(n.ast.test)]
-    chk.need(bool(tests), 'no ALLOWED membership test found in StateMachine._exit_current_state')
+    if not tests:
+        chk.ob('DOM-allowed-check', ex, False, 'no test of the next label against the current state\'s ALLOWED set is left in '
+               '_exit_current_state: any transition is accepted', kind='allowed-test-missing')
     good = []
     for t in tests:
         test = t.ast.test
